@@ -9,7 +9,7 @@ from . import alloc_model, common, cons, hand, hist, place, xt
 
 PID = "C20"
 
-GROUPS = ["one", "two-shared", "two-separate", "three-mixed", "bytearray-shared"]
+GROUPS = ["one", "two-shared", "two-separate", "three-mixed", "bytearray-shared", "hole-in-the-middle", "explicit-offset", "bytearray-hole"]
 
 
 def describe(tier):
@@ -33,8 +33,8 @@ def shards(tier, seed):
     return out[seed % len(out):] + out[: seed % len(out)]
 
 
-def make_group(group, make):
-    """returns list of objects; make(buf, n) constructs object number n in buffer buf"""
+def make_group(group, make, make_at=None):
+    """returns list of objects; make(buf, n) constructs object number n in buffer buf, make_at(buf, n, offset) at an explicit offset"""
     import xobjects as xo
     from xobjects.context_cpu import BufferByteArray
 
@@ -49,6 +49,21 @@ def make_group(group, make):
         return [make(b1, 0), make(b2, 1)]
     if group == "three-mixed":
         return [make(b1, 0), make(b2, 1), make(b1, 2)]
+    if group in ("hole-in-the-middle", "bytearray-hole"):
+        # the buffer's free room is not all at the end: a region between two live objects was used and freed
+        b = b1 if group == "hole-in-the-middle" else BufferByteArray(capacity=32, context=ctx)
+        o0 = make(b, 0)
+        gap = b.allocate(24)
+        b.update_from_buffer(gap, bytes(range(1, 25)))
+        o1 = make(b, 1)
+        b.free(gap, 24)
+        return [o0, o1]
+    if group == "explicit-offset":
+        # an object placed by the caller at an explicit offset the allocator does not know about
+        big = ctx.new_buffer(4096)
+        o0 = make(big, 0)
+        o1 = make_at(big, 1, 2048)
+        return [o0, o1]
     if group == "bytearray-shared":
         b3 = BufferByteArray(capacity=16, context=ctx)
         return [make(b3, 0), make(b3, 1)]
@@ -60,7 +75,7 @@ def extent(x):
     return int(xo_._offset), hand.size_of(xo_)
 
 
-def allocator_check(buf, objs, res):
+def allocator_check(buf, objs, res, explicit=False):
     """the unpickled buffer as an allocator: allocate/free a few regions, judged against a byte map seeded from its own free list"""
     out = []
     cap = buf.capacity
@@ -72,6 +87,7 @@ def allocator_check(buf, objs, res):
         if i not in free:
             m.m[i] = 99  # live or lost: unknown owner, not reusable
     live = [extent(o) for o in objs if (o._xobject if hasattr(o, "_xobject") else o)._buffer is buf]
+    live = [(off, sz) for off, sz in live if not explicit or off < 2048]  # explicit-offset objects are unknown to the allocator by design
     for off, sz in live:
         if any(i in free for i in range(off, off + sz)):
             out.append(("C20.allocator", "live-object-in-free-list", "object [%d,%d) overlaps the free list %r" % (off, off + sz, buf.chunks)))
@@ -146,10 +162,15 @@ def run_xo(name, tier, res, seed):
             vals.append(v)
             return cls(cons.base_arg(t, v), _buffer=buf)
 
+        def make_at(buf, n, offset):
+            v = xt.gen(t, vmode, xt.Ctr(n * 40))
+            vals.append(v)
+            return cls(cons.base_arg(t, v), _buffer=buf, _offset=offset)
+
         def world(writes):
             """fresh originals + unpickled copies, then replay writes [(side, k, path, value)]"""
             del vals[:]
-            objs = make_group(group, make)
+            objs = make_group(group, make, make_at)
             new = pickle.loads(pickle.dumps(objs, protocol=proto))
             mo, mn = list(vals), list(vals)
             for side, k, path, val in writes:
@@ -162,7 +183,7 @@ def run_xo(name, tier, res, seed):
 
         try:
             del vals[:]
-            objs = make_group(group, make)
+            objs = make_group(group, make, make_at)
             if not all(xt.veq(xt.read(t, o), v) for o, v in zip(objs, vals)):
                 res.skipped["initial-readback(C01's business)"] += 1
                 continue
@@ -267,7 +288,7 @@ def run_xo(name, tier, res, seed):
         for n_ in new:
             if not any(n_._buffer is b for b in seenb):
                 seenb.append(n_._buffer)
-                for o_, f_, d_ in allocator_check(n_._buffer, new, res):
+                for o_, f_, d_ in allocator_check(n_._buffer, new, res, explicit=(group == "explicit-offset")):
                     bad(o_, f_, f, cid, d_)
         r = check(objs, new, mo, mn, "after allocating on the unpickled buffers")
         if r:
@@ -330,11 +351,15 @@ def run_hyb(name, tier, res, seed):
         res.violations.append(common.violation(oracle, failure, feat, case, detail))
 
     make = hyb_make(name)
-    for group in GROUPS:
+
+    def make_at(buf, n, offset):
+        raise NotImplementedError
+
+    for group in [g for g in GROUPS if g != "explicit-offset"]:
         f = dict(cls=name, group=group, hybrid=True)
         cid = dict(part="hyb", name=name, group=group)
         try:
-            objs = make_group(group, make)
+            objs = make_group(group, make, make_at)
             before = [hyb_read(name, o) for o in objs]
         except Exception as e:
             res.skipped["construct(C18's business):" + common.exc_failure(e)] += 1
@@ -360,7 +385,7 @@ def run_hyb(name, tier, res, seed):
             res.transitions += 1
             res.events["write-" + side] += 1
             try:
-                objs = make_group(group, make)
+                objs = make_group(group, make, make_at)
                 new = pickle.loads(pickle.dumps(objs))
                 tgt = objs if side == "orig" else new
                 oth = new if side == "orig" else objs
@@ -374,7 +399,7 @@ def run_hyb(name, tier, res, seed):
                     bad("C20.usable", "write-had-no-effect", dict(f, side=side), cid, "")
             except Exception as e:
                 bad("C20.usable", "write-raises:" + common.exc_failure(e), dict(f, side=side), cid, repr(e))
-        objs = make_group(group, make)
+        objs = make_group(group, make, make_at)
         new = pickle.loads(pickle.dumps(objs))
         ref = [hyb_read(name, o) for o in new]
         seenb = []
